@@ -801,7 +801,6 @@ Lemma deep_core : forall c s1 s2 hello t q m,
   length (s_time s1) = length (s_time s2) ->
   cfg_wf c (length (s_time s1)) = true ->
   snaps_in_range s1 s2 = true ->
-  (hello = true -> s_m s1 = 0) ->
   length t = length (mirror c s1) ->
   exists u,
     calc_update c false (mk_data c s2) (last_data c hello s1) = Some u /\
@@ -812,7 +811,7 @@ Lemma deep_core : forall c s1 s2 hello t q m,
                      (add64 q (s_q s2 - s_q s1)) ((m + (s_m s2 - s_m s1)) mod w32)
             =? checksum (sum64 (filter_time (s_time s2) (tracked c))) (s_q s2) (s_m s2)).
 Proof.
-  intros c s1 s2 hello t q m Hsh Hlen Hwf Hrng Hhello Ht.
+  intros c s1 s2 hello t q m Hsh Hlen Hwf Hrng Ht.
   destruct (snaps_in_range_inv s1 s2 Hrng) as [Hdl [Hq1 [Hq2 [Hq3 [Hm1 [Hm2 Hm3]]]]]].
   set (n := length (s_time s1)) in *.
   exists (mk_upd (deep_prs c s1 s2) (s_q s2 - s_q s1) (s_m s2 - s_m s1)
@@ -829,7 +828,6 @@ Proof.
       - exists (mirror c s1). cbn [hello_data d_mtime d_q d_m].
         repeat split; try reflexivity.
         + apply (mirror_length c n s1 eq_refl).
-        + symmetry. now apply Hhello.
       - exists (srv_time c s1). rewrite (mk_data_deep c s1 Hsh).
         cbn [d_mtime d_q d_m]. repeat split; try reflexivity.
         + apply (srv_time_length c n s1 eq_refl).
@@ -872,14 +870,13 @@ Lemma roundtrip_deep_eq : forall (c : cfg) (s1 s2 : snap) (hello : bool),
   length (s_time s1) = length (s_time s2) ->
   cfg_wf c (length (s_time s1)) = true ->
   snaps_in_range s1 s2 = true ->
-  (hello = true -> s_m s1 = 0) ->
   exists u, calc_update c false (mk_data c s2) (last_data c hello s1) = Some u /\
     client_apply c u (mirror c s1) (s_q s1) (s_m s1)
     = Some (mirror c s2, s_q s2, s_m s2, true).
 Proof.
-  intros c s1 s2 hello Hsh Hlen Hwf Hrng Hhello.
+  intros c s1 s2 hello Hsh Hlen Hwf Hrng.
   destruct (deep_core c s1 s2 hello (mirror c s1) (s_q s1) (s_m s1)
-              Hsh Hlen Hwf Hrng Hhello eq_refl) as [u [Hu Ha]].
+              Hsh Hlen Hwf Hrng eq_refl) as [u [Hu Ha]].
   destruct (snaps_in_range_inv s1 s2 Hrng) as [Hdl [Hq1 [Hq2 [Hq3 [Hm1 [Hm2 Hm3]]]]]].
   exists u. split; [exact Hu|]. rewrite Ha.
   rewrite (deep_bump_mirror c s1 s2 Hlen Hwf Hdl).
@@ -895,13 +892,12 @@ Theorem roundtrip_deep_lemma :
     length (s_time s1) = length (s_time s2) ->
     cfg_wf c (length (s_time s1)) = true ->
     snaps_in_range s1 s2 = true ->
-    (hello = true -> s_m s1 = 0) ->
-    let last := if hello then hello_data c s1 else mk_data c s1 in
+      let last := if hello then hello_data c s1 else mk_data c s1 in
     exists u, calc_update c false (mk_data c s2) last = Some u /\
       roundtrip_deep_ok c s2 (client_apply c u (mirror c s1) (s_q s1) (s_m s1)) = true.
 Proof.
-  intros c s1 s2 hello Hsh Hlen Hwf Hrng Hhello last.
-  destruct (roundtrip_deep_eq c s1 s2 hello Hsh Hlen Hwf Hrng Hhello) as [u [Hu Ha]].
+  intros c s1 s2 hello Hsh Hlen Hwf Hrng last.
+  destruct (roundtrip_deep_eq c s1 s2 hello Hsh Hlen Hwf Hrng) as [u [Hu Ha]].
   exists u. split; [exact Hu|]. rewrite Ha. unfold roundtrip_deep_ok.
   now rewrite list_N_eqb_refl, !N.eqb_refl.
 Qed.
@@ -912,16 +908,15 @@ Theorem checksum_detects_lemma :
     length (s_time s1) = length (s_time s2) ->
     cfg_wf c (length (s_time s1)) = true ->
     snaps_in_range s1 s2 = true ->
-    (hello = true -> s_m s1 = 0) ->
-    length t = length (mirror c s1) ->
+      length t = length (mirror c s1) ->
     Forall (fun x => x < w64) t -> q < w64 -> m < w32 ->
     drifted c s1 t q m = true ->
     let last := if hello then hello_data c s1 else mk_data c s1 in
     exists u, calc_update c false (mk_data c s2) last = Some u /\
       rejected (client_apply c u t q m) = true.
 Proof.
-  intros c s1 s2 hello t q m Hsh Hlen Hwf Hrng Hhello Ht _ _ _ Hdr last.
-  destruct (deep_core c s1 s2 hello t q m Hsh Hlen Hwf Hrng Hhello Ht) as [u [Hu Ha]].
+  intros c s1 s2 hello t q m Hsh Hlen Hwf Hrng Ht _ _ _ Hdr last.
+  destruct (deep_core c s1 s2 hello t q m Hsh Hlen Hwf Hrng Ht) as [u [Hu Ha]].
   destruct (snaps_in_range_inv s1 s2 Hrng) as [Hdl [Hq1 [Hq2 [Hq3 [Hm1 [Hm2 Hm3]]]]]].
   exists u. split; [exact Hu|]. rewrite Ha. unfold rejected.
   apply negb_true_iff, N.eqb_neq.
@@ -1145,14 +1140,13 @@ Theorem roundtrip_shallow_values_lemma :
     Forall (fun x => x < w64) (s_time s1) -> Forall (fun x => x < w64) (s_time s2) ->
     s_q s1 <= s_q s2 -> s_q s2 - s_q s1 < w16 -> s_q s2 < w64 ->
     s_m s1 <= s_m s2 -> s_m s2 - s_m s1 < w8 -> s_m s2 < w32 ->
-    (hello = true -> s_m s1 = 0) ->
-    length t = length (mirror c s1) -> parities t = parities (mirror c s1) ->
+      length t = length (mirror c s1) -> parities t = parities (mirror c s1) ->
     Forall (fun x => x < w64) t ->
     let last := if hello then hello_data c s1 else mk_data c s1 in
     exists u, calc_update c true (mk_data c s2) last = Some u /\
       values_shallow_ok c s2 (client_apply c u t (s_q s1) (s_m s1)) = true.
 Proof.
-  intros c s1 s2 hello t Hsh Hlen Hwf _ _ Hq1 Hq2 Hq3 Hm1 Hm2 Hm3 Hhello Ht Hpar _ last.
+  intros c s1 s2 hello t Hsh Hlen Hwf _ _ Hq1 Hq2 Hq3 Hm1 Hm2 Hm3 Ht Hpar _ last.
   set (n := length (s_time s1)) in *.
   assert (Htl : length t = clen c n) by (now rewrite Ht, (mirror_length c n s1 eq_refl)).
   assert (Hbound : forall x, In x (shallow_prs c s1 s2) -> (fst x < length t)%nat).
@@ -1176,7 +1170,6 @@ Proof.
       - exists (mirror c s1). cbn [hello_data d_mtime d_q d_m].
         repeat split; try reflexivity.
         + apply (mirror_length c n s1 eq_refl).
-        + symmetry. now apply Hhello.
       - exists (active01 (srv_time c s1)). rewrite (mk_data_shallow c s1 Hsh).
         cbn [d_mtime d_q d_m]. repeat split; try reflexivity.
         + rewrite active01_length. apply (srv_time_length c n s1 eq_refl).
@@ -1260,7 +1253,7 @@ Proof.
   - exists []. repeat split.
   - destruct Hch as [Hlen [Hrng Hch]].
     destruct (roundtrip_deep_eq c s0 s1 false Hsh Hlen Hwf Hrng)
-      as [u [Hu Ha]]; [discriminate|].
+      as [u [Hu Ha]].
     change (last_data c false s0) with (mk_data c s0) in Hu.
     assert (Hwf1 : cfg_wf c (length (s_time s1)) = true) by (now rewrite <- Hlen).
     destruct (IH s1 Hsh Hwf1 Hch) as [us [Hus [Hl Hap]]].
@@ -1369,27 +1362,27 @@ Proof.
   do 4 eexists. splits; conc.
 Qed.
 
-(* RemoteHello memorises machTick 0: when the machine tick is not 0 at Hello
-   time the first update carries the whole tick as its delta *)
+(* RemoteHello used to memorise machTick 0 (former hello_machtick_refuted);
+   it now memorises the machine tick, and the former witness round-trips *)
 Definition hm_s1 : snap := {| s_time := [1; 4; 2]; s_q := 7; s_m := 1 |}.
 Definition hm_s2 : snap := {| s_time := [3; 9; 2]; s_q := 9; s_m := 1 |}.
 
-Theorem hello_machtick_refuted_lemma :
+Theorem hello_machtick_roundtrip_lemma :
   exists (c : cfg) (s1 s2 : snap),
     shallow c = false /\
     length (s_time s1) = length (s_time s2) /\
     cfg_wf c (length (s_time s1)) = true /\
     snaps_in_range s1 s2 = true /\
     s_m s1 = 1 /\ s_m s2 = 1 /\
-    exists u t' q' m',
+    exists u,
       calc_update c false (mk_data c s2) (hello_data c s1) = Some u /\
-      client_apply c u (mirror c s1) (s_q s1) (s_m s1) = Some (t', q', m', false) /\
-      m' <> s_m s2 /\
-      roundtrip_deep_ok c s2 (client_apply c u (mirror c s1) (s_q s1) (s_m s1)) = false.
+      client_apply c u (mirror c s1) (s_q s1) (s_m s1)
+      = Some (mirror c s2, s_q s2, s_m s2, true) /\
+      roundtrip_deep_ok c s2 (client_apply c u (mirror c s1) (s_q s1) (s_m s1)) = true.
 Proof.
   exists qb_c, hm_s1, hm_s2.
   splits; try conc.
-  do 4 eexists. splits; conc.
+  eexists. splits; conc.
 Qed.
 
 (* ------------------------------------------------------------------ *)
@@ -1399,59 +1392,43 @@ Definition nv_s2 : snap := {| s_time := [3; 9; 2]; s_q := 9; s_m := 4 |}.
 Definition nv_s0 : snap := {| s_time := [1; 4; 2]; s_q := 7; s_m := 0 |}.
 
 Example roundtrip_deep_nonvacuous :
-  exists (c : cfg) (s1 s2 : snap) (hello : bool),
-    shallow c = false /\
-    length (s_time s1) = length (s_time s2) /\
-    cfg_wf c (length (s_time s1)) = true /\
-    snaps_in_range s1 s2 = true /\
-    (hello = true -> s_m s1 = 0) /\
-    mirror c s1 <> mirror c s2.
-Proof.
-  exists qb_c, qb_s1, nv_s2, false. splits; conc.
-Qed.
-
-Example roundtrip_deep_nonvacuous_hello :
   exists (c : cfg) (s1 s2 : snap),
     shallow c = false /\
     length (s_time s1) = length (s_time s2) /\
     cfg_wf c (length (s_time s1)) = true /\
     snaps_in_range s1 s2 = true /\
-    (true = true -> s_m s1 = 0) /\
     mirror c s1 <> mirror c s2.
 Proof.
-  exists {| sync_schema := false; shallow := false; tracked := [2%nat; 0%nat] |}, nv_s0, nv_s2.
-  splits; conc.
+  exists qb_c, qb_s1, nv_s2. splits; conc.
 Qed.
 
 Example checksum_detects_nonvacuous :
-  exists (c : cfg) (s1 s2 : snap) (hello : bool) (t : list N) (q m : N),
+  exists (c : cfg) (s1 s2 : snap) (t : list N) (q m : N),
     shallow c = false /\
     length (s_time s1) = length (s_time s2) /\
     cfg_wf c (length (s_time s1)) = true /\
     snaps_in_range s1 s2 = true /\
-    (hello = true -> s_m s1 = 0) /\
     length t = length (mirror c s1) /\
     Forall (fun x => x < w64) t /\ q < w64 /\ m < w32 /\
     drifted c s1 t q m = true.
 Proof.
-  exists qb_c, qb_s1, nv_s2, false, [2; 0; 2], 7, 3.
+  exists qb_c, qb_s1, nv_s2, [2; 0; 2], 7, 3.
   splits; conc1.
 Qed.
 
 Example roundtrip_shallow_values_nonvacuous :
-  exists (c : cfg) (s1 s2 : snap) (hello : bool) (t : list N),
+  exists (c : cfg) (s1 s2 : snap) (t : list N),
     shallow c = true /\
     length (s_time s1) = length (s_time s2) /\
     cfg_wf c (length (s_time s1)) = true /\
     Forall (fun x => x < w64) (s_time s1) /\ Forall (fun x => x < w64) (s_time s2) /\
     s_q s1 <= s_q s2 /\ s_q s2 - s_q s1 < w16 /\ s_q s2 < w64 /\
     s_m s1 <= s_m s2 /\ s_m s2 - s_m s1 < w8 /\ s_m s2 < w32 /\
-    (hello = true -> s_m s1 = 0) /\
     length t = length (mirror c s1) /\ parities t = parities (mirror c s1) /\
     Forall (fun x => x < w64) t /\
     t <> mirror c s1 /\ parities (mirror c s1) <> parities (mirror c s2).
 Proof.
-  exists sh_c, qb_s1, sh_s2, false, [11; 0; 6].
+  exists sh_c, qb_s1, sh_s2, [11; 0; 6].
   splits; conc1.
 Qed.
 
